@@ -42,7 +42,8 @@ HERE = os.path.dirname(os.path.abspath(__file__))
 SITE = os.path.join(HERE, 'c19_site')
 REPO = os.environ.get('GLOM_REPO', '/repo')
 DIR = '@DIR@'                 # placeholder for the per-run scratch directory
-PARTS = ['s', 't', 'l', 'r', 'p']
+PARTS = ['f', 's', 't', 'l', 'r', 'p']
+EXTS = ['.py', '.json', '.yml', '.toml', '.txt', '']     # file-name extensions (they never matter)
 
 # ---------------------------------------------------------------------------------------
 # reference semantics (what the documentation names): loaders, spec routes, printing
@@ -110,6 +111,8 @@ def kind_of(outcome):
         return 'other'
     if isinstance(r, int):
         return 'int'
+    if isinstance(r, float):
+        return 'float'
     if isinstance(r, (list, dict, tuple)):
         return 'coll'
     return 'other'
@@ -468,7 +471,8 @@ def _finish_obs(exit_, out, err, events, d, token):
     marker = bool(token) and os.path.lexists(os.path.join(d, token))
     if marker and 'effect' not in kinds:
         kinds.append('effect')
-    return dict(exit=exit_, stdout=out, stderr=err[-600:], events=kinds, marker=marker)
+    return dict(exit=exit_, stdout=out, stderr=err[-600:], events=kinds, marker=marker,
+                err='text' if err.strip() else 'empty')
 
 
 def run_inproc(case, d):
@@ -492,7 +496,7 @@ def run_inproc(case, d):
     finally:
         events = c19_audit.disarm()
         sys.stdin, sys.stdout, sys.stderr = old
-    return _finish_obs(ex, so.getvalue(), se.getvalue(), events, d, case['token'])
+    return dict(_finish_obs(ex, so.getvalue(), se.getvalue(), events, d, case['token']), rc='-')
 
 
 def run_subproc(case, d):
@@ -527,7 +531,8 @@ def run_subproc(case, d):
             events = [line.rstrip('\n').split('\t', 1) for line in f if line.strip()]
     else:
         raise vlib.MachineryError('child wrote no audit log (sitecustomize not loaded?): %s' % err[-300:])
-    return _finish_obs(ex, out, err, events, d, case['token'])
+    return dict(_finish_obs(ex, out, err, events, d, case['token']),
+                rc=str(p.returncode) if p.returncode in (0, 1) else 'other')
 
 
 RUNNERS = {'inproc': run_inproc, 'subproc': run_subproc}
@@ -552,15 +557,34 @@ norm_s = lambda f: 'python' if f == 'default' else f
 norm_t = lambda f: 'json' if f == 'default' else f
 
 
+def txt_record(cid):
+    if cid == 'empty':
+        return dict(id='empty', lead='none', pylit=False, json=False, syntax=False, evalok=False, adv=False)
+    a = CLASS_ATTRS[cid]
+    return dict(id=cid, lead=a[0], pylit=a[1], json=a[2], syntax=a[3], evalok=a[4], adv=a[5])
+
+
+def pick_ext(v, rng):
+    """'any' / '-' : the specification does not care, draw one"""
+    return v if v in EXTS else rng.choice(EXTS)
+
+
 def fill_unknown(cfg, known, rng):
     """parts of the configuration the machine never looked at: anything goes"""
     cfg = json.loads(json.dumps(cfg))
+    if 's' not in known:
+        arg = rng.choice(['none', 'text', 'text', 'empty'])
+        file = rng.choice(['none', 'none', 'ok', 'unreadable', 'dash'])
+        cid = rng.choice([c for c in CLASS_ATTRS if not c.startswith('adv')]) if (arg == 'text' or file == 'ok') else 'empty'
+        cfg['s'] = dict(arg=arg, file=file, ext='any', fmt=rng.choice(ALL_SFMT), txt=txt_record(cid))
     if 't' not in known:
-        cfg['t'] = dict(arg=rng.choice(['none', 'text', 'dash']) if cfg['s']['arg'] != 'none' else 'none',
-                        file=rng.choice(['none', 'none', 'ok', 'okempty', 'unreadable', 'dash']),
+        cfg['t'] = dict(arg=rng.choice(['none', 'text', 'dash', 'empty']) if cfg['s']['arg'] != 'none' else 'none',
+                        file=rng.choice(['none', 'none', 'ok', 'okempty', 'unreadable', 'dash']), ext='any',
                         stdin=rng.choice(['empty', 'data']))
     if 'l' not in known:
         cfg['l'] = dict(fmt=rng.choice(ALL_TFMT), txt=rng.choice(['good', 'good', 'malformed']))
+    if 'r' not in known:
+        cfg['r'] = dict(res=cfg['r']['res'], dbg=rng.choice(['off', 'off', 'off', 'debug', 'inspect']))
     if 'p' not in known:
         cfg['p'] = dict(indent=rng.choice(['default', '0', '1', '4']), scalar=rng.choice(['on', 'off']))
     return cfg
@@ -660,22 +684,29 @@ def concretize(st, rng):
         flags.append(['--indent', p['indent']])
     if p['scalar'] == 'on':
         flags.append(['--scalar'])
+    if cfg['r']['dbg'] == 'debug':
+        flags.append(['--debug'])
+    elif cfg['r']['dbg'] == 'inspect':
+        flags.append(['--inspect'])
     eff_spec = spec_text                   # the text the CLI gets to see
+    sname, tname_ = 'spec' + pick_ext(s['ext'], rng), 'target' + pick_ext(t['ext'], rng)
     if s['file'] == 'ok':
         if s['arg'] == 'text':
-            files['spec.txt'] = rng.choice(pools()['blit'])
+            files[sname] = rng.choice(pools()['blit'])
         else:
             nl = '\n' if (spec_text and lead_of(spec_text) != 'other' and rng.random() < 0.5) else ''
-            files['spec.txt'] = spec_text + nl
+            files[sname] = spec_text + nl
             eff_spec = spec_text + nl
-        flags.append(['--spec-file', DIR + '/spec.txt'])
+        flags.append(['--spec-file', DIR + '/' + sname])
     elif s['file'] == 'unreadable':
-        flags.append(['--spec-file', rng.choice([DIR + '/no-such-spec.txt', DIR])])
+        flags.append(['--spec-file', rng.choice([DIR + '/no-such-' + sname, DIR])])
+    elif s['file'] == 'dash':
+        flags.append(['--spec-file', '-'])
     if t['file'] in ('ok', 'okempty'):
-        files['target.txt'] = texts['file'] if t['file'] == 'ok' else ''
-        flags.append(['--target-file', DIR + '/target.txt'])
+        files[tname_] = texts['file'] if t['file'] == 'ok' else ''
+        flags.append(['--target-file', DIR + '/' + tname_])
     elif t['file'] == 'unreadable':
-        flags.append(['--target-file', rng.choice([DIR + '/no-such-target.txt', DIR])])
+        flags.append(['--target-file', rng.choice([DIR + '/no-such-' + tname_, DIR])])
     elif t['file'] == 'dash':
         flags.append(['--target-file', '-'])
     rng.shuffle(flags)
@@ -688,11 +719,27 @@ def concretize(st, rng):
         pos.append(texts['arg'])
     elif t['arg'] == 'dash':
         pos.append('-')
+    elif t['arg'] == 'empty':
+        pos.append('')
+    flags, pos = break_argv(cfg['f']['argv'], flags, pos, rng)
     args = [x for f in flags for x in f]
     args = args + pos                     # face stops reading flags at the first positional
     case = dict(args=args, stdin=texts.get('stdin', ''), files=files, spec_text=eff_spec, token=token,
                 texts=texts, cfg=cfg, indent=p['indent'])
     return case, None
+
+
+def break_argv(kind, flags, pos, rng):
+    """violate the documented command-line syntax in the given way"""
+    if kind == 'badindent':
+        flags = [f for f in flags if f[0] != '--indent'] + [['--indent', rng.choice(['x', 'two', '1.5'])]]
+        rng.shuffle(flags)
+    elif kind == 'toomany':
+        pos = (pos + ['a', '{"a": 1}'])[:2] + [rng.choice(['extra', '{}', 'a'])]
+    elif kind == 'unknownflag':
+        flags = flags + [rng.choice([['--no-such-flag'], ['--spec-fmt', 'json'], ['--target', '{}']])]
+        rng.shuffle(flags)
+    return flags, pos
 
 
 def eval_term(o, case, d_sub=None):
@@ -760,6 +807,10 @@ def judge(st, case, obs):
             probs.append(('drift', 'stdout %r predicted, %r observed' % (exp[1:], obs['stdout'][:300])))
         elif ev != m['evs']:
             probs.append(('drift', 'audit events %s predicted, %s observed' % (m['evs'], ev)))
+        elif m['rc'] != '-' and obs['rc'] != '-' and m['rc'] != obs['rc']:
+            probs.append(('drift', 'process status %s predicted, %s observed' % (m['rc'], obs['rc'])))
+        elif m['err'] != '-' and m['err'] != obs['err']:
+            probs.append(('drift', 'stderr %s predicted, observed %r' % (m['err'], obs['stderr'][-200:])))
     return probs
 
 
@@ -778,14 +829,14 @@ def signatures(st):
             'B:' + '/'.join(h) + '|' + (m['cfg']['l']['fmt'] if 'l' in m['known'] else '-'))
 
 
-SUB_MOD = {'quick': 0, 'thorough': 16}    # thorough: every 16th state also as a child process
+SUB_MOD = {'quick': 0, 'thorough': 48}    # thorough: every 48th state also as a child process
 _TIER, _SEED = ['quick'], [0]
 
 
 def slim(st):
     m = st['m']
     return {'m': {k: m[k] for k in ('cfg', 'known', 'route', 'executed', 'effect', 'evs', 'sel', 'tgt', 'out',
-                                    'exit', 'law', 'hist')}}
+                                    'exit', 'rc', 'err', 'law', 'hist')}}
 
 
 def replay_state(st, modes, base, seed, out):
@@ -817,7 +868,7 @@ def worker(states):
             out['cases'] += 1
             for a in m['hist']:
                 out['actions'][a] = out['actions'].get(a, 0) + 1
-            if len(m['known']) >= 2 or m['cfg']['s']['txt']['adv']:
+            if len(m['known']) >= 3 or m['cfg']['s']['txt']['adv']:
                 out['nontrivial'] += 1
             _rng, h = state_rng(st, seed)
             sigs = signatures(st)
@@ -991,12 +1042,13 @@ def rand_case(rng):
     # spec side
     r = rng.random()
     s_arg, s_file = ('text', 'none') if r < 0.62 else ('none', 'ok') if r < 0.8 else ('text', 'ok') if r < 0.84 else \
-        ('none', 'unreadable') if r < 0.88 else ('empty', 'none') if r < 0.93 else ('none', 'none') if r < 0.97 else ('empty', 'ok')
+        ('none', 'unreadable') if r < 0.87 else ('none', 'dash') if r < 0.88 else ('empty', 'none') if r < 0.93 else \
+        ('none', 'none') if r < 0.97 else ('empty', 'ok')
     # target side
     if s_arg == 'none':
         t_arg = 'none'
     else:
-        t_arg = rng.choice(['text', 'text', 'text', 'none', 'none', 'dash'])
+        t_arg = rng.choice(['text'] * 9 + ['none'] * 6 + ['dash'] * 3 + ['empty'])
     t_file = rng.choice(['none'] * 6 + ['ok', 'ok', 'okempty', 'unreadable', 'dash'])
     if t_arg != 'none' and rng.random() < 0.85:
         t_file = 'none'
@@ -1033,29 +1085,39 @@ def rand_case(rng):
         flags.append(['--indent', indent])
     if scalar == 'on':
         flags.append(['--scalar'])
+    r = rng.random()
+    dbg = 'debug' if r < 0.08 else 'inspect' if r < 0.1 else 'off'
+    if dbg != 'off':
+        flags.append(['--' + dbg])
+    r = rng.random()
+    argv = 'ok' if r < 0.96 else rng.choice(['badindent', 'toomany', 'unknownflag'])
+    s_ext, t_ext = rng.choice(EXTS), rng.choice(EXTS)
+    sname, tname = 'spec' + s_ext, 'target' + t_ext
     eff_spec = spec_text if s_arg == 'text' else ''
     if s_file == 'ok':
         if s_arg == 'text':
-            files['spec.txt'] = "{'k': 'a'}"
+            files[sname] = "{'k': 'a'}"
         else:
             if rng.random() < 0.1:
                 content = ''
             else:
                 content = spec_text + ('\n' if lead_of(spec_text) != 'other' and rng.random() < 0.5 else '')
-            files['spec.txt'] = content
+            files[sname] = content
             eff_spec = content
-        flags.append(['--spec-file', DIR + '/spec.txt'])
+        flags.append(['--spec-file', DIR + '/' + sname])
     elif s_file == 'unreadable':
-        flags.append(['--spec-file', rng.choice([DIR + '/no-such-spec.txt', DIR])])
+        flags.append(['--spec-file', rng.choice([DIR + '/no-such-' + sname, DIR])])
+    elif s_file == 'dash':
+        flags.append(['--spec-file', '-'])
     if s_arg != 'text' and s_file != 'ok':
         eff_spec = ''
     if token and token not in eff_spec and not (s_arg == 'text'):
         token = ''
     if t_file in ('ok', 'okempty'):
-        files['target.txt'] = texts.get('file', '')
-        flags.append(['--target-file', DIR + '/target.txt'])
+        files[tname] = texts.get('file', '')
+        flags.append(['--target-file', DIR + '/' + tname])
     elif t_file == 'unreadable':
-        flags.append(['--target-file', rng.choice([DIR + '/no-such-target.txt', DIR])])
+        flags.append(['--target-file', rng.choice([DIR + '/no-such-' + tname, DIR])])
     elif t_file == 'dash':
         flags.append(['--target-file', '-'])
     rng.shuffle(flags)
@@ -1068,6 +1130,9 @@ def rand_case(rng):
         pos.append(texts['arg'])
     elif t_arg == 'dash':
         pos.append('-')
+    elif t_arg == 'empty':
+        pos.append('')
+    flags, pos = break_argv(argv, flags, pos, rng)
     args = [x for f in flags for x in f]
     args = args + pos                     # face stops reading flags at the first positional
     # abstract configuration: classified from the concrete pieces
@@ -1078,9 +1143,11 @@ def rand_case(rng):
     cid = class_id(attrs)
     if cid is None:
         return None
-    cfg = dict(s=dict(arg=s_arg, file=s_file, fmt=sfmt, txt=dict(id=cid, **attrs)),
-               t=dict(arg=t_arg, file=t_file, stdin=stdin),
+    cfg = dict(f=dict(argv=argv),
+               s=dict(arg=s_arg, file=s_file, ext=s_ext if s_file == 'ok' else '-', fmt=sfmt, txt=dict(id=cid, **attrs)),
+               t=dict(arg=t_arg, file=t_file, ext=t_ext if t_file in ('ok', 'okempty') else '-', stdin=stdin),
                l=dict(fmt=tfmt, txt='malformed' if (malformed and tfmt != 'bad') else 'good'),
+               r=dict(dbg=dbg),
                p=dict(indent=indent, scalar=scalar))
     return dict(args=args, stdin=texts.get('stdin', ''), files=files, spec_text=eff_spec if s_arg != 'text' else spec_text,
                 token=token, texts=texts, cfg=cfg, indent=indent)
@@ -1136,7 +1203,7 @@ def candidates(case, obs):
 def make_row(case, obs):
     ex = obs['exit'] if obs['exit'] in ('0', '1', 'usage', 'crash') else 'other'
     return dict(cfg=case['cfg'], lib=candidates(case, obs), events=obs['events'],
-                obs=dict(exit=ex, outempty=obs['stdout'] == ''))
+                obs=dict(exit=ex, outempty=obs['stdout'] == '', rc=obs['rc'], err=obs['err']))
 
 
 def _record_one(job):
